@@ -8,6 +8,7 @@ Definition pins : list string := ["usim/_basics/streams.py:Channel.closed";
   "usim/_basics/streams.py:Channel.__await__";
   "usim/_basics/streams.py:Channel.__aiter__";
   "usim/_basics/streams.py:Channel.put";
+  "usim/_basics/streams.py:Channel.__repr__";
   "usim/_basics/streams.py:StreamClosed.__init__";
   "usim/_primitives/notification.py:postpone";
   "usim/_primitives/notification.py:suspend";
@@ -19,6 +20,7 @@ Definition pins : list string := ["usim/_basics/streams.py:Channel.closed";
   "usim/_primitives/notification.py:Notification.__unsubscribe__";
   "usim/_primitives/notification.py:Notification.__subscription__";
   "usim/_primitives/notification.py:Notification.__del__";
+  "usim/_primitives/notification.py:Notification.__repr__";
   "usim/_primitives/notification.py:<module>";
   "usim/_primitives/notification.py:Notification.<attrs>";
   "usim/_basics/streams.py:<module>";
